@@ -758,4 +758,307 @@ theorem repInv_own (B : HBlock) (env : Nat → Content) (cap : Nat) (hwf : B.WF 
     | last _ => exact absurd hv (by simp [Valid])
     | root _ _ => exact absurd hv (by simp [Valid])
 
+
+/-! ### every step keeps the invariant; completion is announced exactly when it happens -/
+
+theorem stepEv_repInv (B : HBlock) (env : Nat → Content) (cap : Nat) (hwf : B.WF env cap)
+    (hroots : ∀ i, i < B.n → B.root i ≠ 0) (σ : Sys) (e : Ev) (hinv : RepInv B cap σ) (hadm : Admissible B e) :
+    RepInv B cap (stepEv env cap σ e).1 ∧
+      ((spotOf cap B σ.store).completed.isSome → (spotOf cap B (stepEv env cap σ e).1.store).completed.isSome) ∧
+      ((spotOf cap B σ.store).completed = none → (spotOf cap B (stepEv env cap σ e).1.store).completed.isSome →
+        Announced B (stepEv env cap σ e).2) := by
+  cases e with
+  | resp r =>
+    by_cases hb : r.req.bid = bidOf B
+    · obtain ⟨h1, h2, h3, _⟩ := repInv_own B env cap hwf hroots σ r hinv hadm hb
+      exact ⟨h1, h2, h3⟩
+    · obtain ⟨h1, h2⟩ := repInv_other B env cap σ r hinv hb
+      refine ⟨h1, by rw [h2]; exact id, ?_⟩
+      rw [h2]; intro h3 h4; simp [h3] at h4
+  | timeout =>
+    refine ⟨repInv_timeout B env cap σ hinv, id, ?_⟩
+    intro h3 h4
+    have : (stepEv env cap σ Ev.timeout).1.store = σ.store := rfl
+    rw [this, h3] at h4; simp at h4
+  | start b =>
+    refine ⟨repInv_start B env cap σ b hinv, id, ?_⟩
+    intro h3 h4
+    have : (stepEv env cap σ (Ev.start b)).1.store = σ.store := rfl
+    rw [this, h3] at h4; simp at h4
+
+theorem run_repInv (B : HBlock) (env : Nat → Content) (cap : Nat) (hwf : B.WF env cap)
+    (hroots : ∀ i, i < B.n → B.root i ≠ 0) (evs : List Ev) (σ : Sys) (hinv : RepInv B cap σ)
+    (hadm : ∀ e ∈ evs, Admissible B e) :
+    RepInv B cap (run env cap σ evs).1 ∧
+      ((spotOf cap B σ.store).completed.isSome → (spotOf cap B (run env cap σ evs).1.store).completed.isSome) ∧
+      ((spotOf cap B σ.store).completed = none → (spotOf cap B (run env cap σ evs).1.store).completed.isSome →
+        ∃ o ∈ (run env cap σ evs).2, Announced B o) := by
+  induction evs generalizing σ with
+  | nil =>
+    refine ⟨hinv, id, ?_⟩
+    intro h1 h2; simp only [run] at h2; simp [h1] at h2
+  | cons e rest ih =>
+    obtain ⟨s1, s2, s3⟩ := stepEv_repInv B env cap hwf hroots σ e hinv (hadm e List.mem_cons_self)
+    obtain ⟨r1, r2, r3⟩ := ih (stepEv env cap σ e).1 s1 (fun x hx => hadm x (List.mem_cons_of_mem _ hx))
+    simp only [run]
+    refine ⟨r1, fun h => r2 (s2 h), ?_⟩
+    intro h1 h2
+    cases hmid : (spotOf cap B (stepEv env cap σ e).1.store).completed with
+    | none =>
+      obtain ⟨o, ho, ha⟩ := r3 hmid h2
+      exact ⟨o, List.mem_cons_of_mem _ ho, ha⟩
+    | some blk =>
+      exact ⟨_, List.mem_cons_self, s3 h1 (by rw [hmid]; rfl)⟩
+
+theorem getBlock_of_spot (B : HBlock) (cap : Nat) (store : Store) (blk : Block)
+    (hnodis : ∀ blk, (storeGet cap store B.slot).dis.completed = some blk → blk.hash ≠ B.block.hash)
+    (hc : (spotOf cap B store).completed = some blk) :
+    getBlock (storeGet cap store B.slot) B.block.hash = some blk := by
+  have hbd : blockData (storeGet cap store B.slot) B.block.hash = repGet (storeGet cap store B.slot).rep B.block.hash := by
+    unfold blockData
+    cases hd : (storeGet cap store B.slot).dis.completed with
+    | none => rfl
+    | some b => simp only; rw [if_neg (hnodis b hd)]
+  unfold getBlock
+  rw [hbd]
+  unfold spotOf at hc
+  cases hr : repGet (storeGet cap store B.slot).rep B.block.hash with
+  | none => rw [hr] at hc; simp [BlockData.new] at hc
+  | some b => rw [hr] at hc; simpa using hc
+
+/-- **Quiescence means completion**: when the invariant holds and no request about `B` is outstanding
+    any more, every shred of `B` has been stored, hence (liveness of reconstruction) the block is
+    complete and `get_block` returns it. -/
+theorem repInv_quiescent_done (B : HBlock) (cap : Nat) (σ : Sys) (hinv : RepInv B cap σ)
+    (hq : ∀ r ∈ σ.st.outstanding, r.bid ≠ bidOf B) :
+    (spotOf cap B σ.store).completed = some B.block ∧
+      getBlock (storeGet cap σ.store B.slot) B.block.hash = some B.block := by
+  have hc : (spotOf cap B σ.store).completed = some B.block := by
+    rcases hinv.prog with h | h | h
+    · cases hcc : (spotOf cap B σ.store).completed with
+      | none => rw [hcc] at h; simp at h
+      | some blk => rw [hinv.live.good.completed blk hcc]
+    · exact absurd rfl (hq _ h)
+    · apply live_all_stored_completed B cap _ hinv.live
+      intro i j hi hj
+      rcases h i hi with h | ⟨_, hs⟩
+      · exact absurd rfl (hq _ h)
+      · rcases hs j hj with h | h
+        · exact absurd rfl (hq _ h)
+        · exact h
+  exact ⟨hc, getBlock_of_spot B cap σ.store B.block hinv.nodis hc⟩
+
+
+/-! ### the honest responder's answers and fairness -/
+
+/-- what a peer that holds `B` answers -/
+def honestResp (B : HBlock) (r : Req) : Resp :=
+  match r with
+  | .last _ => .lastRoot r (B.n - 1) (B.root (B.n - 1)) ((Tree.new B.roots).createProof (B.n - 1))
+  | .root _ i => .sliceRoot r (B.root i) ((Tree.new B.roots).createProof i)
+  | .shred b i j => .shred r b.slot (B.shred i j) true
+
+theorem honestResp_req (B : HBlock) (r : Req) : (honestResp B r).req = r := by
+  cases r <;> rfl
+
+/-- `r` is *served* in the schedule `evs` starting from `σ`: at some point the response `ρ r` is
+    delivered while `r` is outstanding -/
+def Served (env : Nat → Content) (cap : Nat) (ρ : Req → Resp) (r : Req) : Sys → List Ev → Prop
+  | _, [] => False
+  | σ, e :: rest => (e = .resp (ρ r) ∧ r ∈ σ.st.outstanding) ∨ Served env cap ρ r (stepEv env cap σ e).1 rest
+
+/-- **Fairness of a finite schedule** (towards the block id `bid`, with `ρ` the correct responder):
+    every request about `bid` that is outstanding at any point of the schedule — in particular every
+    request issued or re-sent during it — is served at that point or later. -/
+def Fair (env : Nat → Content) (cap : Nat) (ρ : Req → Resp) (bid : Bid) : Sys → List Ev → Prop
+  | σ, [] => ∀ r ∈ σ.st.outstanding, r.bid ≠ bid
+  | σ, e :: rest =>
+    (∀ r ∈ σ.st.outstanding, r.bid = bid → Served env cap ρ r σ (e :: rest)) ∧
+      Fair env cap ρ bid (stepEv env cap σ e).1 rest
+
+theorem fair_quiescent (env : Nat → Content) (cap : Nat) (ρ : Req → Resp) (bid : Bid) (evs : List Ev) (σ : Sys)
+    (h : Fair env cap ρ bid σ evs) : ∀ r ∈ (run env cap σ evs).1.st.outstanding, r.bid ≠ bid := by
+  induction evs generalizing σ with
+  | nil => exact h
+  | cons e rest ih => exact ih _ h.2
+
+/-! ### the measure: weight of what is still requested -/
+
+def wt (B : HBlock) (r : Req) : Nat :=
+  if r.bid = bidOf B then
+    match r with
+    | .last _ => 1 + (TOTAL_SHREDS + 1) * B.n
+    | .root _ _ => TOTAL_SHREDS + 1
+    | .shred _ _ _ => 1
+  else 0
+
+def mu (B : HBlock) (st : RepairSt) : Nat := (st.outstanding.map (wt B)).sum
+
+theorem sum_filter_ne (f : Req → Nat) (l : List Req) (r : Req) (h : r ∈ l) :
+    ((l.filter (· ≠ r)).map f).sum + f r ≤ (l.map f).sum := by
+  induction l with
+  | nil => simp at h
+  | cons x rest ih =>
+    by_cases hx : x = r
+    · subst hx
+      simp only [List.filter_cons, ne_eq, not_true_eq_false, decide_false, Bool.false_eq_true, if_false,
+        List.map_cons, List.sum_cons]
+      by_cases hin : x ∈ rest
+      · have := ih hin; simp only [ne_eq] at this; omega
+      · have : rest.filter (fun y => decide (¬ y = x)) = rest := by
+          rw [List.filter_eq_self]; intro a ha; simp; rintro rfl; exact hin ha
+        rw [this]; omega
+    · have hin : r ∈ rest := by
+        rcases List.mem_cons.mp h with h | h
+        · exact absurd h.symm hx
+        · exact h
+      have := ih hin
+      simp only [ne_eq] at this
+      simp only [List.filter_cons, ne_eq, hx, not_false_eq_true, decide_true, if_true, List.map_cons, List.sum_cons]
+      omega
+
+theorem mu_done (B : HBlock) (st : RepairSt) (r : Req) (h : r ∈ st.outstanding) :
+    mu B (done st r) + wt B r ≤ mu B st := by
+  unfold mu done
+  exact sum_filter_ne (wt B) st.outstanding r h
+
+theorem mu_sendRequest (B : HBlock) (st : RepairSt) (r : Req) : mu B (sendRequest st r) ≤ mu B st + wt B r := by
+  unfold mu sendRequest
+  simp only
+  split
+  · omega
+  · simp
+
+theorem mu_sendAll (B : HBlock) (st : RepairSt) (rs : List Req) :
+    mu B (sendAll st rs) ≤ mu B st + (rs.map (wt B)).sum := by
+  unfold sendAll
+  induction rs generalizing st with
+  | nil => simp
+  | cons r rest ih =>
+    simp only [List.foldl_cons, List.map_cons, List.sum_cons]
+    have h1 := ih (sendRequest st r)
+    have h2 := mu_sendRequest B st r
+    omega
+
+theorem mu_sendAll_le (B : HBlock) (st st0 : RepairSt) (rs : List Req) (h : st.outstanding = st0.outstanding) :
+    mu B (sendAll st rs) ≤ mu B st0 + (rs.map (wt B)).sum := by
+  have := mu_sendAll B st rs
+  have e : mu B st = mu B st0 := by unfold mu; rw [h]
+  omega
+
+theorem sum_const (f : Req → Nat) (l : List Req) (c : Nat) (h : ∀ x ∈ l, f x = c) : (l.map f).sum = c * l.length := by
+  induction l with
+  | nil => simp
+  | cons x rest ih =>
+    simp only [List.map_cons, List.sum_cons, List.length_cons]
+    rw [h x List.mem_cons_self, ih (fun y hy => h y (List.mem_cons_of_mem _ hy))]
+    rw [Nat.mul_succ]; omega
+
+theorem mu_roots_only (B : HBlock) (st st' : RepairSt) (h : st'.outstanding = st.outstanding) : mu B st' = mu B st := by
+  unfold mu; rw [h]
+
+
+/-- **A correct response to an outstanding request makes progress**: it is admissible, removes only
+    that request, and strictly decreases the weight of what is still requested. -/
+theorem honest_step (B : HBlock) (env : Nat → Content) (cap : Nat) (hwf : B.WF env cap)
+    (hroots : ∀ i, i < B.n → B.root i ≠ 0) (hn32 : B.n ≤ 2 ^ 32) (σ : Sys) (r : Req)
+    (hinv : RepInv B cap σ) (hout : r ∈ σ.st.outstanding) (hb : r.bid = bidOf B) :
+    Admissible B (.resp (honestResp B r)) ∧
+      (∀ x ∈ σ.st.outstanding, x ≠ r → x ∈ (stepEv env cap σ (.resp (honestResp B r))).1.st.outstanding) ∧
+      mu B (stepEv env cap σ (.resp (honestResp B r))).1.st < mu B σ.st := by
+  have hn := hwf.npos
+  cases r with
+  | last b =>
+    simp only [Req.bid] at hb; subst hb
+    have hv := honest_last_valid B hn hn32
+    simp only [honestResp, stepEv, handle_last_valid env cap σ.st σ.store (bidOf B) (B.n - 1) _ _ hout hv]
+    refine ⟨fun _ => hroots (B.n - 1) (by omega), ?_, ?_⟩
+    · intro x hx hne
+      rw [sendAll_outstanding]
+      exact Or.inl ((done_outstanding _ _ _).mpr ⟨hx, hne⟩)
+    · refine Nat.lt_of_le_of_lt (mu_sendAll_le B _ (done σ.st (Req.last (bidOf B))) _ rfl) ?_
+      have h2 := mu_done B σ.st (Req.last (bidOf B)) hout
+      have h4 : (((List.range (B.n - 1 + 1)).map (fun i => Req.root (bidOf B) i)).map (wt B)).sum =
+          (TOTAL_SHREDS + 1) * B.n := by
+        rw [sum_const (wt B) _ (TOTAL_SHREDS + 1)]
+        · simp only [List.length_map, List.length_range]
+          have : B.n - 1 + 1 = B.n := by omega
+          rw [this]
+        · intro x hx
+          simp only [List.mem_map] at hx
+          obtain ⟨i, _, rfl⟩ := hx
+          simp [wt, Req.bid]
+      have h5 : wt B (Req.last (bidOf B)) = 1 + (TOTAL_SHREDS + 1) * B.n := by simp [wt, Req.bid]
+      omega
+  | root b i =>
+    simp only [Req.bid] at hb; subst hb
+    have hi := hinv.reqRoot i hout
+    have hv := honest_root_valid B hn32 i hi
+    simp only [honestResp, stepEv, handle_root_valid env cap σ.st σ.store (bidOf B) i _ _ hout hv]
+    refine ⟨fun _ => hroots i hi, ?_, ?_⟩
+    · intro x hx hne
+      rw [sendAll_outstanding]
+      exact Or.inl ((done_outstanding _ _ _).mpr ⟨hx, hne⟩)
+    · refine Nat.lt_of_le_of_lt (mu_sendAll_le B _ (done σ.st (Req.root (bidOf B) i)) _ rfl) ?_
+      have h2 := mu_done B σ.st (Req.root (bidOf B) i) hout
+      have h4 : (((List.range TOTAL_SHREDS).map (fun j => Req.shred (bidOf B) i j)).map (wt B)).sum = TOTAL_SHREDS := by
+        rw [sum_const (wt B) _ 1]
+        · simp
+        · intro x hx
+          simp only [List.mem_map] at hx
+          obtain ⟨j, _, rfl⟩ := hx
+          simp [wt, Req.bid]
+      have h5 : wt B (Req.root (bidOf B) i) = TOTAL_SHREDS + 1 := by simp [wt, Req.bid]
+      omega
+  | shred b i j =>
+    simp only [Req.bid] at hb; subst hb
+    obtain ⟨root, hroot⟩ := shred_arm_root_known σ.st (bidOf B) i j hinv.rootsKnown hout
+    obtain ⟨_, hr⟩ := hinv.roots i root hroot
+    subst hr
+    have hroot' : rootGet σ.st.sliceRoots (bidOf B, i) = some (B.shred i j).root := hroot
+    simp only [honestResp, stepEv, handle_shred_valid env cap σ.st σ.store (bidOf B) i j (B.shred i j) hout rfl rfl hroot']
+    refine ⟨fun _ _ _ _ _ => rfl, ?_, ?_⟩
+    · intro x hx hne
+      exact (done_outstanding _ _ _).mpr ⟨hx, hne⟩
+    · have h2 := mu_done B σ.st (Req.shred (bidOf B) i j) hout
+      have h5 : wt B (Req.shred (bidOf B) i j) = 1 := by simp [wt, Req.bid]
+      omega
+
+/-- **Fair schedules exist from every state of the repair, and they are finite**: whatever happened
+    before (any admissible prefix leads to a `RepInv` state), answering the outstanding requests
+    correctly, one at a time, is a fair schedule — by induction on the weight `mu` of what is still
+    requested (last-slice root > slice roots > shreds). -/
+theorem fair_extension (B : HBlock) (env : Nat → Content) (cap : Nat) (hwf : B.WF env cap)
+    (hroots : ∀ i, i < B.n → B.root i ≠ 0) (hn32 : B.n ≤ 2 ^ 32) (σ : Sys) (hinv : RepInv B cap σ) :
+    ∃ ext : List Ev, (∀ e ∈ ext, Admissible B e) ∧ (∀ e ∈ ext, ∃ r, r.bid = bidOf B ∧ e = .resp (honestResp B r)) ∧
+      Fair env cap (honestResp B) (bidOf B) σ ext := by
+  generalize hm : mu B σ.st = m
+  induction m using Nat.strongRecOn generalizing σ with
+  | _ m ih =>
+    rcases Classical.em (∃ r, r ∈ σ.st.outstanding ∧ r.bid = bidOf B) with ⟨r, hout, hb⟩ | hnone
+    · obtain ⟨hadm, hkeep, hlt⟩ := honest_step B env cap hwf hroots hn32 σ r hinv hout hb
+      have hinv' := (stepEv_repInv B env cap hwf hroots σ _ hinv hadm).1
+      obtain ⟨ext, h1, h2, h3⟩ := ih _ (by rw [← hm]; exact hlt) _ hinv' rfl
+      refine ⟨.resp (honestResp B r) :: ext, ?_, ?_, ?_⟩
+      · intro e he
+        rcases List.mem_cons.mp he with rfl | he
+        · exact hadm
+        · exact h1 e he
+      · intro e he
+        rcases List.mem_cons.mp he with rfl | he
+        · exact ⟨r, hb, rfl⟩
+        · exact h2 e he
+      · refine ⟨?_, h3⟩
+        intro r' hr' hb'
+        by_cases hrr : r' = r
+        · subst hrr; exact Or.inl ⟨rfl, hr'⟩
+        · right
+          have hin := hkeep r' hr' hrr
+          cases ext with
+          | nil => exact absurd hb' (h3 r' hin)
+          | cons e' rest => exact h3.1 r' hin hb'
+    · refine ⟨[], by simp, by simp, ?_⟩
+      intro r hr hb
+      exact hnone ⟨r, hr, hb⟩
+
 end AgModel.Repair
